@@ -33,6 +33,12 @@ CHECKS = {
         "note": "Trusts vlib/refurl.py (independent splitter), the idna package, CPython re; time clause uses CPU time with an absolute-and-relative threshold.",
         "design_ref": "DESIGN.md section 4, C14",
     },
+    "C01": {
+        "technique": "Hypothesis-generated histories (pool kind x maxsize x block x retries x preload/release mode, <= 6 scripted per-attempt outcomes from 24 fault/response kinds, 1-4 requests with a disposal each) + the bounded-exhaustive matrix single outcome x retries x release mode x disposal x pool kind, on an in-memory scripted server; oracle: invariants over the pool queue and the socket seam after the history and again after one clean request",
+        "text": "Real HTTPConnectionPool / HTTPSConnectionPool / ProxyManager objects (forwarding and CONNECT tunnel, null TLS) are driven through scripted faults at connect, TLS, CONNECT, send (head/body) and receive, including injected BaseExceptions; after every response has been disposed the queue must hold exactly maxsize entries with no connection twice, every socket not idle in the pool must be closed, a blocking pool must never have had more than maxsize sockets open, every failure must be a urllib3 exception or the injected interrupt object itself, and a final clean request must succeed.",
+        "note": "Trusts vlib/servers.py, vlib/fakenet.py, vlib/nulltls.py. Known finding KF-C01-close (close() on a response that owns its connection loses the slot) is matched by signature (0 < lost slots <= number of such close() calls) and counted.",
+        "design_ref": "DESIGN.md section 4, C01",
+    },
     "C04": {
         "technique": "bounded-exhaustive (budget grid x method class x pool kind x every outcome sequence of length <= 2 quick / <= 3 thorough) + Hypothesis-generated policies and scripts (<= 5 outcomes) against a scripted in-memory server with a virtual clock; oracle: counting invariants over the attempts the server saw, classified by ground-truth fault category, plus the recorded sleeps and how the call ended",
         "text": "The real HTTPConnectionPool / ProxyManager is driven through scripted sequences of connect errors, read errors, TLS record errors and retryable statuses; the attempts observed at the server are counted against total and the per-category budgets, re-sends of non-idempotent methods after read errors or statuses are flagged, every time.sleep of the retry module is bounded by backoff_max or the Retry-After just received, the caller's Retry object is snapshot-compared, and the final exception/response is compared with the last cause; an ample-budget liveness clause guards against a vacuous never-retry.",
